@@ -55,6 +55,16 @@ CLAIMED = {
         "its traversal is only covered by the bounded stand-in of C05. Termination of textx_isinstance needs acyclic "
         "_tx_inh_by (assumed, see C03). Scope providers are External callables.",
         "DESIGN.md 5/C07, Appendix B", ""),
+    "C27": (
+        "check_params is proved to accept exactly the declared parameter names (loop invariant over the keyword "
+        "arguments); model_from_str / model_from_file call it first and forward a ModelParams holding exactly the "
+        "given arguments; the two kwargs_callback closures install those parameters on every model of the load; "
+        "GlobalModelRepository.load_model / load_models_using_filepattern / load_model_using_search_path and the "
+        "import-following steps of ImportURI and GlobalRepo pass the importing model's parameters on (CALL-site "
+        "clauses on the recorded call events); each definitions registry owns a fresh dict.",
+        "The callbacks are invoked by parse_tree_to_objgraph for every model that has _tx_metamodel (the existing "
+        "assert there) - that call site is not yet under contract. Arpeggio parsing and user callbacks are External.",
+        "DESIGN.md 5/C27", ""),
     "C28": (
         "Error construction sites proved to carry file/line/col of the offending text: unknown object (file of the "
         "resolver's model, position of the cross-ref by the resolver's parser), non-unique name (PlainName), syntax "
